@@ -593,6 +593,11 @@ def r_rle_dep(ctx):
         fa = ctx.fa(f)
         # the run-length merge's parameters by type and order: (entries: &mut Vec<Entry>, tile_id: u64, offset: u64, length: u32)
         P = {"entries": role_param(fa, f, "entryvec"), "tile_id": role_param(fa, f, "u64", 0), "offset": role_param(fa, f, "u64", 1), "length": role_param(fa, f, "u32")}
+        for n_, prm_ in zip(fa.param_names, f["params"]):
+            pf_ = _pair_struct_of(ctx, prm_["ty"])
+            if pf_ is not None:
+                # (offset, length) arrive as one local pair struct: its u64 field is the offset, its u32 field the length
+                P["offset"], P["length"] = ("f", V("param:" + n_), pf_[0]), ("f", V("param:" + n_), pf_[1])
         ext = 0
         for p in fa.paths:
             stores = [e for e in p.events if e.kind == "assign" and e.d.get("place") is not None and unmut(e.d["place"])[0] == "f" and unmut(e.d["place"])[2] == "run_length"]
@@ -970,10 +975,19 @@ def r_listing(ctx):
         return no_anchor("R-LISTING", "tile store")
     idmap = self_field(roles["tiles"])
     found = {"list": 0, "count": 0}
+    lazy_list = set()
     for f in ctx.user_fns():
         if "TileManager" not in (f.get("self_ty") or ""):
             continue
         fa = ctx.fa(f)
+        if "Iterator<Item = &u64>" in f["ret"] and len(fa.paths) == 1:
+            # the listing handed out lazily: the keys iterator itself (the public wrapper collects it, checked below)
+            found["list"] += 1
+            v = unmut(fa.paths[0].value)
+            ok = is_call_to(v, lambda s: s == HM + "keys") and unmut(v[2][0]) == idmap
+            obs.append(Ob("R-LISTING", f["path"], "listing = keys of the id map", ok, "returns %s" % tstr(v)[:100], rel(f["loc"])))
+            lazy_list.add(f["path"])
+            continue
         if "Vec<&u64>" in f["ret"] and len(fa.paths) > 1:
             # the listing written as a loop: a fresh vector that receives every key of the id map, unconditionally
             found["list"] += 1
@@ -1020,7 +1034,10 @@ def r_listing(ctx):
                 cs = [e for e in p.events if e.kind == "call" and e.d["fn"].startswith("tile_manager::TileManager")]
                 ok = ok and len(cs) == 1 and unmut(cs[0].d["args"][0]) == tm and all(a == V("param:" + n) for a, n in zip([unmut(x) for x in cs[0].d["args"][1:]], fa.param_names[1:]))
                 if name != "remove_tile":
-                    ok = ok and unmut(p.value) == unmut(cs[0].d["ret"]) if cs else False
+                    pv_ = unmut(p.value)
+                    if cs and cs[0].d["fn"] in lazy_list and is_call_to(pv_, lambda s_: s_.endswith("Iterator::collect")) and pv_[2]:
+                        pv_ = unmut(pv_[2][0])      # the store hands out the keys iterator, the wrapper collects it unchanged
+                    ok = ok and pv_ == unmut(cs[0].d["ret"]) if cs else False
             obs.append(Ob("R-LISTING", f["path"], "public wrapper forwards to the store with its own arguments", ok, "paths: %d" % len(fa.paths), rel(f["loc"])))
     return obs
 
